@@ -1,6 +1,6 @@
 SPECIFICATION Spec
 CONSTANTS
-  Feats = {"type:str", "lit:5", "ast:For", "call:print", "op:+", "type:float"}
+  Feats = {"type:str", "lit:5", "ast:For", "call:print", "op:+", "foreign"}
   MaxOcc = 1
   MaxLen = 3
   Flags = {}
